@@ -116,3 +116,7 @@ impl FunctionExpression for ExistsFn {
         TypeDef::boolean().infallible()
     }
 }
+
+#[cfg(kani)]
+#[path = "/verif/kani/std_exists.rs"]
+mod kani_verif;
